@@ -15,7 +15,9 @@ register("C16",
                    _P + "select_correct", _P + "smallest_correct", _P + "largest_correct",
                    _H + "push_spec", _H + "pop_spec", _H + "peek_spec", _H + "decreaseKey_spec", _H + "decreaseKey_valueError",
                    _H + "remove_spec", _H + "extractMin_spec", _H + "consolidate_spec", _H + "consolidate_ok",
-                   _H + "total_intMin", _H + "total_intMax"],
+                   _H + "total_intMin", _H + "total_intMax",
+                   _P + "drainsTo_length", _P + "drain_sorted", _P + "reachable_drain_sorted",
+                   _P + "drain_ascending_int", _P + "drain_descending_int"],
          streams=["heap", "heapsel", "heap_O"],
          assumptions=["keys are compared by a total preorder (Total cmp); proved for int keys and ReversedComparator(int)",
                       "decrease_key / remove are only applied to nodes that are in the heap (documented precondition)",
